@@ -49,6 +49,7 @@ func TestMain(m *testing.M) {
 		"wire-decoded or in-memory; an initial part of the schedule may arrive while the party is still in round0); checked after every delivery; " +
 		"a second family (TestProposalHistories) embeds such a schedule in a history where round0 has really accepted the wire-decoded proposal and waits for the parent block while re-sent proposals in other encodings, " +
 		"identical duplicates, equivocating / foreign proposals and early verify messages arrive, then completes; " +
+		"a third family (TestProcessorEarlyBuffer) sends every verify message through the real Processor.OnMessageVerify: early ones (incl. a burst of 0..25 junk messages of one faulty sender) are buffered by the Processor before the proposal / during round0 / before the re-registration under the block hash, then replayed; " +
 		"non-trivial = at least one invalid (Byzantine) message is delivered before the k-th distinct valid one; distinct by (n, verifier, number of early messages, sequence of (sender, kind, transport))")
 	stats.Assume("Processor.OnMessageVerify routes by cvm.BlockHash: messages filed under bh.Hash reach this party, and so do messages filed under the party's initial key " +
 		"generatePartyKey(bh) while the party is still registered under it (round0 running / re-registration pending). Messages that are consistently about another hash X " +
@@ -181,6 +182,8 @@ type instance struct {
 
 	partyKey     common.Hash
 	realProposal bool
+	selfInfo     model.SelfMinerInfo
+	storage      *access.JoinedGroupStorage
 	castorSK     groupsig.Seckey
 	castSign     model.SignInfo
 	registered   []bool // share public key of member i is in the verifier's joined-group record
@@ -351,7 +354,9 @@ func buildInstanceKeys(t failer, src source, n int, ownMissing, otherMissing int
 		in.registered[i] = true
 		storage.AddMemberSignPk(in.ids[i], in.gid, in.pks[i])
 	}
-	group_create.VerifC15Install(model.SelfMinerInfo{SecKey: in.sks[in.self], MinerInfo: model.MinerInfo{ID: in.ids[in.self]}}, storage, in.net)
+	in.selfInfo = model.SelfMinerInfo{SecKey: in.sks[in.self], MinerInfo: model.MinerInfo{ID: in.ids[in.self]}}
+	in.storage = storage
+	group_create.VerifC15Install(in.selfInfo, storage, in.net)
 	in.party = logical.VerifC15NewParty(in.ids[in.self], in.chain, in.net, storage, common.ToHex(in.partyKey.Bytes()))
 	if in.party == nil {
 		t.Fatalf("SignParty.Start failed")
@@ -371,6 +376,8 @@ type spec struct {
 	rnd      []byte
 	wire     bool
 	msgID    string // for in-memory delivery (the wire id is the hash of the bytes)
+
+	extra []byte // unknown protobuf field appended to the wire bytes (same content, other bytes => other id)
 
 	cast     string // non-empty: this item is a ConsensusCastMessage (proposal) of that variant
 	castWire []byte // its wire bytes
@@ -588,6 +595,7 @@ func (in *instance) realise(s *spec) (msg *model.ConsensusVerifyMessage, dropped
 		if err != nil {
 			return nil, "unsendable"
 		}
+		b = append(b, s.extra...)
 		func() {
 			defer func() {
 				if r := recover(); r != nil { // ConsensusHandler.Handle recovers and drops the message
@@ -1323,6 +1331,233 @@ func TestResentProposalExample(t *testing.T) {
 			t.Fatalf("C15 violated: re-sent proposal (%s) while round0 waits for the parent: finalised=%v\nhistory: %v\n%s", v, out.finalised, render(in, sc), out.fail)
 		}
 	}
+}
+
+// ---------- histories through the Processor's early buffer ----------
+
+var burstKinds = []string{"outsider_replay", "outsider_own_key", "bh_hash_sig_other", "other_hash", "other_hash_sig_bh", "replay_member",
+	"foreign_point_sig", "beacon_other_value", "swapped_shares", "zero_id", "reencoded_copy", "reencoded_copy"}
+
+type procSchedule struct {
+	schedule
+	cutProposal, cutCompleted int // early messages [0,cutProposal) arrive before the proposal, [cutProposal,cutCompleted) during round0, the rest before the re-registration
+	burst                     int
+	honestAfter10             int // valid early messages with >= 10 earlier early messages filed under the block hash
+}
+
+// genProcSchedule: genSchedule's messages, most of the valid ones early, plus a burst of 0..25 junk messages
+// of ONE faulty sender filed under the block hash, placed before / inside / after the early honest shares.
+func genProcSchedule(in *instance, src source, t *rapid.T) procSchedule {
+	sc := genSchedule(in, src, t)
+	var early, late []spec
+	earlyBias := src.Int("early_bias", 0, 3) // 0: as drawn, else most messages early
+	for i, m := range sc.msgs {
+		if strings.HasSuffix(m.kind, "oversize_id") {
+			late = append(late, m)
+		} else if i < sc.nEarly || earlyBias > 0 && src.Int(fmt.Sprintf("to_early%d", i), 0, earlyBias) > 0 {
+			early = append(early, m)
+		} else {
+			late = append(late, m)
+		}
+	}
+	var ps procSchedule
+	switch src.Int("burst_class", 0, 4) {
+	case 0:
+		ps.burst = 0
+	case 1:
+		ps.burst = src.Int("burst_small", 1, 9)
+	case 2:
+		ps.burst = 10
+	default:
+		ps.burst = src.Int("burst_big", 11, 25)
+	}
+	faulty := src.Int("burst_sender", -1, in.n-1)
+	var burst []spec
+	for i := 0; i < ps.burst; i++ {
+		kind := rapid.SampledFrom(burstKinds).Draw(t, fmt.Sprintf("burst_kind%d", i))
+		tag := fmt.Sprintf("b%d", i)
+		var m spec
+		switch {
+		case kind == "reencoded_copy" && len(burst) > 0: // an earlier burst message once more, other bytes
+			m = burst[src.Int(tag+"_of", 0, len(burst)-1)].copyAs("reencoded_copy")
+			m.extra = append(append([]byte{}, m.extra...), 0x78, byte(src.Int(tag+"_x", 0, 127)))
+		case kind == "reencoded_copy" || faulty < 0 && !strings.HasPrefix(kind, "outsider") && kind != "zero_id":
+			m = in.mkSpec(src, "outsider_replay", -1, tag)
+		default:
+			b := faulty
+			if strings.HasPrefix(kind, "outsider") || kind == "zero_id" {
+				b = -1
+			}
+			m = in.mkSpec(src, kind, b, tag)
+		}
+		m.wire = true
+		m.kind = "burst:" + m.kind
+		burst = append(burst, m)
+	}
+	// position of the burst relative to the other early messages
+	pos := 0
+	switch src.Int("burst_position", 0, 3) {
+	case 0:
+		pos = 0
+	case 1:
+		pos = len(early)
+	default:
+		pos = src.Int("burst_at", 0, len(early))
+	}
+	merged := append(append(append([]spec{}, early[:pos]...), burst...), early[pos:]...)
+	if src.Int("burst_interleave", 0, 3) == 0 && len(merged) > 1 { // a few swaps: shares inside the burst
+		for c := 0; c < 4; c++ {
+			i, j := src.Int(fmt.Sprintf("sw%da", c), 0, len(merged)-1), src.Int(fmt.Sprintf("sw%db", c), 0, len(merged)-1)
+			merged[i], merged[j] = merged[j], merged[i]
+		}
+	}
+	ps.schedule = sc
+	ps.msgs = append(merged, late...)
+	ps.nEarly = len(merged)
+	ps.cutProposal = src.Int("cut_proposal", 0, ps.nEarly)
+	if src.Int("all_before_proposal", 0, 1) == 0 {
+		ps.cutProposal = ps.nEarly
+	}
+	ps.cutCompleted = src.Int("cut_completed", ps.cutProposal, ps.nEarly)
+	filedHere := 0
+	for i := 0; i < ps.nEarly; i++ {
+		m := &ps.msgs[i]
+		if m.filed == nil {
+			if filedHere >= 10 && in.validFor(m) >= 0 {
+				ps.honestAfter10++
+			}
+			filedHere++
+		}
+	}
+	return ps
+}
+
+// runProcessor: every verify message enters through Processor.OnMessageVerify. Early ones are buffered by
+// the Processor (no party is registered under the block hash yet); the party is registered under its initial
+// key, round0 completes, the party is re-registered under the block hash and the buffered messages are
+// replayed; late ones are routed to the party. The model counts a valid message when it is SENT; the
+// comparison with the party is made whenever nothing is pending in the buffer.
+func runProcessor(in *instance, ps procSchedule) (out outcome) {
+	out.dropped = map[string]int{}
+	r := &runner{in: in, valid: map[int]bool{}}
+	defer func() {
+		if p := recover(); p != nil {
+			out.fail = fmt.Sprintf("panic escaped the node: %v", p)
+		}
+		out.finalised = r.finalised
+		out.validSenders = len(r.valid)
+	}()
+	proc := logical.VerifC15NewProcessor(in.selfInfo, in.storage, in.chain, in.net)
+	initialKey, realKey := common.ToHex(in.partyKey.Bytes()), common.ToHex(in.hash.Bytes())
+	if realKey != in.hash.String() {
+		out.fail = "harness: Hash.String() is not the routing key format"
+		return
+	}
+	send := func(i int) {
+		s := &ps.msgs[i]
+		msg, dropped := in.realise(s)
+		if dropped != "" {
+			out.dropped[dropped]++
+			return
+		}
+		v := in.validFor(s)
+		if r.countable < in.k {
+			if v < 0 {
+				out.byzBeforeThresh++
+			}
+			out.kindsBeforeThres = append(out.kindsBeforeThres, s.kind)
+		}
+		proc.OnMessageVerify(msg)
+		if v >= 0 && !r.valid[v] {
+			r.valid[v] = true
+			if in.registered[v] {
+				r.countable++
+			}
+		}
+	}
+	for i := 0; i < ps.cutProposal; i++ {
+		send(i)
+	}
+	proc.Register(in.party, initialKey) // the proposal arrives: party under its initial key, round0 running
+	for i := ps.cutProposal; i < ps.cutCompleted; i++ {
+		send(i)
+	}
+	in.party.FinishRound0(in.bh, in.preBH, in.group, true)
+	for i := ps.cutCompleted; i < ps.nEarly; i++ {
+		send(i)
+	}
+	for _, m := range proc.Rekey(in.party, initialKey, realKey) { // the node: one goroutine per message, any order
+		in.party.Update(m)
+	}
+	if out.fail = r.check(fmt.Sprintf("after the re-registration under the block hash replayed the buffered ones of %d early messages (burst of %d)", ps.nEarly, ps.burst)); out.fail != "" {
+		return
+	}
+	for i := ps.nEarly; i < len(ps.msgs); i++ {
+		send(i)
+		s := ps.msgs[i]
+		if out.fail = r.check(fmt.Sprintf("after late message #%d (%s from %d)", i, s.kind, s.sender)); out.fail != "" {
+			return
+		}
+	}
+	return
+}
+
+// TestProcessorEarlyBuffer: see runProcessor. Same oracle as TestShareCounting.
+func TestProcessorEarlyBuffer(t *testing.T) {
+	stats.Check(t, 220, 1000, func(t *rapid.T) {
+		src := rapidSrc{t}
+		n := src.Int("n", 5, 7)
+		in := buildInstance(t, src, n)
+		ps := genProcSchedule(in, src, t)
+		out := runProcessor(in, ps)
+
+		shape := render(in, ps.schedule)
+		nt := ""
+		if out.byzBeforeThresh > 0 {
+			nt = fmt.Sprintf("Q|%d|%d|%d|%d|%d|%v|%d|%s", n, in.self, ps.nEarly, ps.cutProposal, ps.cutCompleted, in.missingOwn, in.missingOther, strings.Join(shape, ","))
+		}
+		classes := []string{"family:processor_early_buffer"}
+		switch {
+		case ps.burst == 0:
+			classes = append(classes, "early_buffer:burst=0")
+		case ps.burst < 10:
+			classes = append(classes, "early_buffer:burst=1-9")
+		case ps.burst == 10:
+			classes = append(classes, "early_buffer:burst=10")
+		default:
+			classes = append(classes, "early_buffer:burst=11-25")
+		}
+		switch {
+		case ps.honestAfter10 == 0:
+			classes = append(classes, "early_buffer:valid_early_shares_after_10_earlier_messages=0")
+		case ps.honestAfter10 < 3:
+			classes = append(classes, "early_buffer:valid_early_shares_after_10_earlier_messages=1-2")
+		default:
+			classes = append(classes, "early_buffer:valid_early_shares_after_10_earlier_messages=3+")
+		}
+		switch {
+		case ps.cutProposal == ps.nEarly:
+			classes = append(classes, "early_buffer:all_early_before_proposal")
+		default:
+			classes = append(classes, "early_buffer:early_split_around_round0")
+		}
+		if out.finalised {
+			classes = append(classes, "early_buffer:finalised")
+		} else {
+			classes = append(classes, "early_buffer:below_threshold")
+		}
+		stats.Case(nt, classes...)
+		for d, c := range out.dropped {
+			stats.Count("dropped:"+d, int64(c))
+		}
+		stats.Count("messages_delivered", int64(len(ps.msgs)))
+		stats.Sample(map[string]interface{}{"family": "processor_early_buffer", "n": n, "k": in.k, "self": in.self, "early": ps.nEarly, "burst": ps.burst,
+			"before_proposal": ps.cutProposal, "before_completion": ps.cutCompleted, "schedule": shape, "valid_senders": out.validSenders, "finalised": out.finalised})
+		if out.fail != "" {
+			t.Fatalf("C15 violated: n=%d k=%d verifier=member %d block %s\nearly [0,%d) before the proposal, [%d,%d) during round0, [%d,%d) before the re-registration; burst of %d from one sender\nhistory: %v\n%s",
+				n, in.k, in.self, in.hash.String(), ps.cutProposal, ps.cutProposal, ps.cutCompleted, ps.cutCompleted, ps.nEarly, ps.burst, shape, out.fail)
+		}
+	})
 }
 
 // ---------- probe for the recorded finding (hand-written minimal schedule) ----------
